@@ -113,7 +113,7 @@ func ruleP04ResumePrevious(p *Prog, r *Report) {
 	r.check(okSort, rule, "descending", p.pos(cl.Pos()), "records are visited from the latest to the oldest", "the previous record is not searched in descending date order (an older record than the most recent earlier one is taken)")
 	// the store to PreviousRecord: element of that sorted slice, on the edge where !elem.Date().IsAfterOrEqual(current)
 	okStore := false
-	eachInstr(cl, func(in ssa.Instruction) {
+	eachVInstr(cl, func(in ssa.Instruction) {
 		st, ok := in.(*ssa.Store)
 		if !ok {
 			return
